@@ -144,6 +144,11 @@ impl Queryable for J {
                 for a in args.iter() {
                     n += (**a).query("$..*").map(|v| v.len()).unwrap_or(0);
                     n += (**a).query("$[?@ == @]").map(|v| v.len()).unwrap_or(0);
+                    // the inner evaluation is an evaluation like any other: descendants are reported with their own paths
+                    match (**a).query_only_path("$..*") {
+                        Ok(ps) => { if ps.iter().any(|p| !p.starts_with("$[")) || { let mut u = ps.clone(); u.sort(); u.dedup(); u.len() != ps.len() } { return J::Bool(false); } }
+                        Err(_) => return J::Bool(false),
+                    }
                 }
                 J::Bool(n < usize::MAX)
             }
